@@ -142,6 +142,7 @@ func extractAll(outdir string) {
 	files["DriverFacts.lean"] = extractDriver()
 	files["ConfigFacts.lean"] = extractConfig()
 	files["Sites.lean"] = extractSites()
+	files["OrderSites.lean"] = extractOrder()
 	files["TemplateFacts.lean"] = extractTemplate()
 	files["Operators.lean"] = extractOperators()
 	sort.Strings(untranslatable)
